@@ -88,6 +88,9 @@ theorem limit_class_iff_exempt (r : Req) :
       ((r.method = "PUT".toList ∧ lower r.uri.toStr = "/vmagentlog".toList) ∨
        (r.method = "POST".toList ∧ lower r.uri.toStr = "/machine/?comp=telemetrydata".toList)) := by
     unfold shouldSkipSig
+    have hu : Gpa.Facts.skipSigPutUrl.toList = "/vmagentlog".toList ∧
+        Gpa.Facts.skipSigPostUrl.toList = "/machine/?comp=telemetrydata".toList := by decide
+    rw [hu.1, hu.2]
     simp only [Bool.or_eq_true, Bool.and_eq_true, decide_eq_true_eq]
   unfold specLimit
   constructor
